@@ -382,6 +382,11 @@ _CHILD_SRC = r"""
 import importlib, os, pickle, sys, traceback
 path = sys.argv[3]
 try:
+    import ctypes, signal
+    ctypes.CDLL(None).prctl(1, int(signal.SIGKILL))      # PR_SET_PDEATHSIG: do not outlive a worker that is killed
+except Exception:
+    pass
+try:
     args = pickle.loads(sys.stdin.buffer.read())
     mod = importlib.import_module(sys.argv[1])
     try:
@@ -418,6 +423,13 @@ def in_child_interpreter(module: str, func: str, args, optimize: int = 1, timeou
     env["PYTHONPYCACHEPREFIX"] = "/var/tmp/verif-pyc-%d" % os.getuid()     # no .opt-N.pyc files in /repo or /verif
     fd, path = tempfile.mkstemp(prefix="verif-child-", dir="/var/tmp")
     os.close(fd)
+    try:                                   # scratch files of workers that were killed (wall cap, early stop) are swept here
+        now = time.time()
+        for n in os.listdir("/var/tmp"):
+            if n.startswith("verif-child-") and now - os.stat(os.path.join("/var/tmp", n)).st_mtime > 7200:
+                os.unlink(os.path.join("/var/tmp", n))
+    except OSError:
+        pass
     try:
         cmd = [sys.executable, "-O" if optimize == 1 else "-OO", "-c", _CHILD_SRC, module, func, path]
         p = subprocess.Popen(cmd, stdin=subprocess.PIPE, stdout=subprocess.DEVNULL, stderr=subprocess.PIPE, env=env, cwd=VERIF_DIR)
